@@ -721,20 +721,18 @@ def verify_directory_hash_subcommand(
     if hash_format is None:
         generation = -1
         # inspect the history and use all documented algorithms as the basis of verification
-        # nested histories may have been recorded with other formats, so all histories are inspected
-        for history in MHLHistory.walk_child_histories(existing_history):
-            for hash_list in history.hash_lists:
-                # generations created without directory hashes have no root hash
-                if hash_list.process_info.root_media_hash is None:
-                    continue
-                if hash_list.generation_number > generation:
-                    # add each hash entry's format to the list of formats
-                    if len(hash_list.process_info.root_media_hash.hash_entries) > 0:
-                        for entry in hash_list.process_info.root_media_hash.hash_entries:
-                            entry_hash_format = entry.hash_format
-                            # do not permit duplicate entries in the list
-                            if entry_hash_format not in hash_formats:
-                                hash_formats.append(entry_hash_format)
+        for hash_list in existing_history.hash_lists:
+            # generations created without directory hashes have no root hash
+            if hash_list.process_info.root_media_hash is None:
+                continue
+            if hash_list.generation_number > generation:
+                # add each hash entry's format to the list of formats
+                if len(hash_list.process_info.root_media_hash.hash_entries) > 0:
+                    for entry in hash_list.process_info.root_media_hash.hash_entries:
+                        entry_hash_format = entry.hash_format
+                        # do not permit duplicate entries in the list
+                        if entry_hash_format not in hash_formats:
+                            hash_formats.append(entry_hash_format)
         if not hash_formats:
             hash_formats.append("c4")
             logger.verbose(f"default hash format: c4")
@@ -743,6 +741,19 @@ def verify_directory_hash_subcommand(
     else:
         hash_formats.append(hash_format)
         logger.verbose(f"hash format: {hash_format}")
+
+    # the formats the result is judged by are those of the root history (or the given one)
+    judged_hash_formats = list(hash_formats)
+
+    # nested histories may have been recorded with other formats, these are calculated (and compared) as well
+    if hash_format is None:
+        for history in MHLHistory.walk_child_histories(existing_history):
+            for hash_list in history.hash_lists:
+                if hash_list.process_info.root_media_hash is None:
+                    continue
+                for entry in hash_list.process_info.root_media_hash.hash_entries:
+                    if entry.hash_format not in hash_formats:
+                        hash_formats.append(entry.hash_format)
 
     # start a verification session on the existing history
     hash_format_list = sorted(hash_formats)
@@ -913,7 +924,7 @@ def verify_directory_hash_subcommand(
 
     # check the failure lookup.  if even one format verified, consider the entire process verified
     if failures_per_format_lookup:
-        if len(failures_per_format_lookup.keys()) == len(hash_format_list):
+        if all(judged_format in failures_per_format_lookup for judged_format in judged_hash_formats):
             exception = errors.VerificationDirectoriesFailedException()
 
     if exception:
